@@ -88,6 +88,11 @@ class Check(BaseCheck):
 
     def problems(self, seed, n_tri, n_tet):
         rng = gen.rng_for(seed, "c03")
+        # several components, each much larger than k (the Krylov space must reach every component)
+        a, ta = gen.icosphere(1); b, tb = gen.torus(7, 6)
+        v2, t2 = gen.union((a * rng.uniform(0.8, 1.2, 3), ta), (b, tb))
+        for k in (2, 3, int(rng.integers(4, 8))):
+            yield dict(kind="tri", v=v2, t=t2, k=k, lump=bool(rng.random() < 0.5), name="two-large-components", dt="f64", pre=None)
         for kind, stream in (("tri", gen.tria_stream(seed + 91, n_tri, "small", first=("two-components", "two-spheres"))), ("tet", gen.tet_stream(seed + 92, n_tet, "small"))):
             for c in stream:
                 n = len(c["v"])
